@@ -38,7 +38,9 @@ add(
     "independent edit/Hamming distance under an independent wildcard model, error budget (exact and float). An "
     "exhaustive sweep covers all adapters over {A,C,N} and reads over {A,C,N,a} up to small lengths for all eight types; "
     "a CLI slice checks --info-file columns against the API match; a history sub-check feeds several reads to one "
-    "adapter object and demands the result of a fresh object (no state leaking between reads).",
+    "adapter object and demands the result of a fresh object (no state leaking between reads); a multi-source CLI "
+    "sub-check (direct and file: specifications, own / file-wide / global parameters) demands that every info-file row "
+    "is what the named adapter reports with its documented parameters.",
     "Held on everything explored. Trusted: the oracle's own wildcard model (written from the documentation), Python.",
     "DESIGN.md section 4, C01",
 )
@@ -277,7 +279,8 @@ add(
     "the output; output written before an error must be complete records forming a prefix of the fault-free output. "
     "The multi-core error path (single-end and paired faults) also runs under the schedule-owning simulator (deadlock = "
     "no runnable task); gzip inputs far larger than any read-ahead buffer are truncated so that the reader meets the "
-    "fault after chunks were handed out; paired faults are also run on FASTA input.",
+    "fault after chunks were handed out; paired faults are also run on FASTA input. Real-process runs send the reads "
+    "to a file or to standard output and require an error line on stderr besides the start-up lines.",
     "Faults are enumerated completely per generated input; inputs, schedules and real-process runs are sampled. "
     "'Never hangs' is decided exactly in the simulator and by a generous time bound for real runs.",
     "DESIGN.md sections 3.5 and 4, C12",
